@@ -3,7 +3,6 @@ import vlib
 
 KNOWN = {
     "unspread-fragment-unchecked",
-    "same-interface-fragment-skipped",
     "variable-inside-custom-scalar-literal-unchecked",
     "duplicate-argument-value-unchecked",
 }
@@ -38,8 +37,8 @@ def run(ctx):
         ],
         assumptions=[
             "C03 theorems are stated for the sites a spread-following validator reaches from the operations (Spec.v vis_op_sites); "
-            "the positions outside (never-spread fragment definitions, contents of a fragment whose type condition is the enclosing "
-            "interface, variables inside custom-scalar literals) are refuted by witness and listed as known findings",
+            "the positions outside (never-spread fragment definitions, variables inside custom-scalar literals, the second value of a "
+            "repeated argument) are refuted by witness and listed as known findings",
             "the schema passed check (the harness only keeps schemas for which check_type_system_document returns no error)",
         ],
     )
